@@ -38,7 +38,7 @@ ASSUMPTIONS = [
   'nothing is asserted about the partial effects of a call that raised (they legitimately differ between eager and traced execution); the twin is re-synchronised from the caller\'s objects afterwards and the NEXT call must conform',
   'pmap, shard_map, custom_vjp are not covered (broken on this jax even with the shim)',
 ]
-PROBES = ['T_jit', 'T_remat', 'T_cond', 'T_switch', 'T_while_loop', 'T_fori_loop', 'T_cached_partial', 'cache_hit_same_structure', 'structure_changed_between_calls', 'aliased_arguments', 'structural_edit_in_trace', 'new_object_created_in_trace', 'fault_in_trace', 'call_after_fault', 'cached_partial_rejects_structure_change']
+PROBES = ['T_jit', 'T_remat', 'T_cond', 'T_switch', 'T_while_loop', 'T_fori_loop', 'T_cached_partial', 'T_jit_cond', 'T_jit_fori', 'cache_hit_same_structure', 'structure_changed_between_calls', 'aliased_arguments', 'structural_edit_in_trace', 'new_object_created_in_trace', 'fault_in_trace', 'call_after_fault', 'cached_partial_rejects_structure_change']
 
 CROSS_RUN_STATE = True
 
@@ -95,10 +95,10 @@ def generate(rs, tier):
   build.append(dict(op='var', obj=0, name='w', vtype='Param', shape=[2], fill=g.randrange(1, 5), meta={}))
   fns = []
   for _ in range(g.choice([1, 1, 2])):
-    T = g.choice(['jit', 'jit', 'remat', 'cond', 'switch', 'while_loop', 'fori_loop', 'cached_partial'])
+    T = g.choice(['jit', 'jit', 'remat', 'cond', 'switch', 'while_loop', 'fori_loop', 'cached_partial', 'jit_cond', 'jit_fori'])
     structural = T in ('jit', 'remat', 'cached_partial')
-    arity = 1 if T in ('while_loop', 'fori_loop', 'cached_partial') else g.choice([1, 2, 2, 3])
-    nprog = {'cond': 2, 'switch': 3}.get(T, 1)
+    arity = 1 if T in ('while_loop', 'fori_loop', 'cached_partial', 'jit_cond', 'jit_fori') else g.choice([1, 2, 2, 3])
+    nprog = {'cond': 2, 'switch': 3, 'jit_cond': 2}.get(T, 1)
     fns.append(dict(T=T, arity=arity, progs=[gen_program(g, arity, structural and g.random() < 0.7) for _ in range(nprog)]))
   ops = []
   flip = False
@@ -248,6 +248,14 @@ def build_fn(fd, heap_kind):
         return interpret(progs[0], nodes, x)
       if T == 'cond':
         return interpret(progs[0] if sel % 2 == 0 else progs[1], nodes, x, value_only=True)
+      if T == 'jit_cond':
+        # predicate computed from the data, inside the jitted function
+        return interpret(progs[0] if float(np.sum(x)) > 3.0 else progs[1], nodes, x, value_only=True)
+      if T == 'jit_fori':
+        acc = jnp.zeros((), jnp.float32)
+        for i in range(2):
+          acc = acc + interpret(progs[0], nodes, x, value_only=True)
+        return acc
       if T == 'switch':
         return interpret(progs[sel % 3], nodes, x, value_only=True)
       acc = jnp.zeros((), jnp.float32)
@@ -266,6 +274,25 @@ def build_fn(fd, heap_kind):
     else:
       f = wrap(lambda a, b, c, x: interpret(progs[0], [a, b, c], x))
     return lambda nodes, x, sel, trips: f(*nodes, x)
+  if T == 'jit_cond':
+    ft = lambda a, x: interpret(progs[0], [a], x, value_only=True)
+    ff = lambda a, x: interpret(progs[1], [a], x, value_only=True)
+    f = nnx.jit(lambda a, x: nnx.cond(jnp.sum(x) > 3.0, ft, ff, a, x))
+    return lambda nodes, x, sel, trips: f(nodes[0], x)
+  if T == 'jit_fori':
+    def body(i, c):
+      m, acc = c
+      return m, acc + interpret(progs[0], [m], x_holder[0], value_only=True)
+
+    x_holder = [None]
+
+    def inner(a, x):
+      x_holder[0] = x
+      m, acc = nnx.fori_loop(0, 2, body, (a, jnp.zeros((), jnp.float32)))
+      return acc
+
+    f = nnx.jit(inner)
+    return lambda nodes, x, sel, trips: f(nodes[0], x)
   if T == 'cached_partial':
     jf = nnx.jit(lambda a, x: interpret(progs[0], [a], x))
     cache = {}
